@@ -720,7 +720,8 @@ type descIn struct {
 	File   int   `json:"file"` // index into the pool
 	Fake   bool  `json:"fake_id,omitempty"`
 	Offset int64 `json:"offset"`
-	Size   int64 `json:"size"` // LastSeenSize
+	Size   int64 `json:"size"`             // LastSeenSize
+	Missed bool  `json:"missed,omitempty"` // old descriptors: the scan before did not find the file (one-scan grace, repair of F61)
 }
 
 type descsCase struct {
@@ -771,9 +772,13 @@ func descTag(d descIn) string {
 
 func descsLine(c descsCase) string {
 	var sb strings.Builder
-	fmt.Fprintf(&sb, "merge %d", len(c.Old))
+	fmt.Fprintf(&sb, "merge2 %d", len(c.Old))
 	for _, d := range c.Old {
-		fmt.Fprintf(&sb, " %s %d %d", vh.HxS(descTag(d)), d.Offset, d.Size)
+		m := 0
+		if d.Missed && scanner.VerifDescHasMissed() { // a tree without the flag cannot be given one
+			m = 1
+		}
+		fmt.Fprintf(&sb, " %s %d %d %d", vh.HxS(descTag(d)), d.Offset, d.Size, m)
 	}
 	fmt.Fprintf(&sb, " %d", len(c.New))
 	for _, d := range c.New {
@@ -800,11 +805,12 @@ func checkDescs(sec *vh.Section, pool *descPool, cases []descsCase) {
 		}
 	}
 	for i, c := range cases {
-		var old, new []scanner.VerifDesc
+		var old []scanner.VerifDescM
+		var new []scanner.VerifDesc
 		tagOf := map[string]string{}
 		for _, d := range c.Old {
 			v := pool.desc(d)
-			old = append(old, v)
+			old = append(old, scanner.VerifDescM{VerifDesc: v, Missed: d.Missed})
 			tagOf[v.Id] = descTag(d)
 		}
 		for _, d := range c.New {
@@ -812,14 +818,22 @@ func checkDescs(sec *vh.Section, pool *descPool, cases []descsCase) {
 			new = append(new, v)
 			tagOf[v.Id] = descTag(d)
 		}
-		got, kept := scanner.VerifMergeDescs(old, new)
+		// the whole result: the ids of the new scan in its order, then old descriptors kept although the scan did not
+		// find them (none unless the code has the one-scan grace)
+		got, kept := scanner.VerifMergeDescsAll(old, new)
 		var toks []string
 		for j, d := range got {
-			k := 0
+			k, m := 0, 0
 			if kept[j] {
 				k = 1
 			}
-			toks = append(toks, fmt.Sprintf("%s:%d:%d:%d", vh.HxS(tagOf[d.Id]), d.Offset, d.LastSeenSize, k))
+			if d.Missed {
+				m = 1
+			}
+			toks = append(toks, fmt.Sprintf("%s:%d:%d:%d:%d", vh.HxS(tagOf[d.Id]), d.Offset, d.LastSeenSize, k, m))
+		}
+		if len(got) > len(c.New) {
+			res.Dist(sec, "old-descriptor-kept-although-not-scanned")
 		}
 		impl := strings.Join(toks, " ")
 		if impl == "" {
@@ -844,6 +858,9 @@ func checkDescs(sec *vh.Section, pool *descPool, cases []descsCase) {
 			oldBy[descTag(d)] = d
 		}
 		for j, d := range got {
+			if j >= len(c.New) {
+				break // descriptors kept although the scan did not find them: compared with the model only
+			}
 			nd := c.New[j]
 			od, known := oldBy[descTag(nd)]
 			real := descPoolSizes[nd.File]
@@ -900,7 +917,7 @@ func genDescsCase(rng *vh.Rng) descsCase {
 		case 2:
 			off = real + 1
 		}
-		c.Old = append(c.Old, descIn{File: j, Fake: rng.Chance(1, 6), Offset: off, Size: sz})
+		c.Old = append(c.Old, descIn{File: j, Fake: rng.Chance(1, 6), Offset: off, Size: sz, Missed: rng.Chance(1, 4)})
 	}
 	for _, j := range rng.Perm(nf)[:rng.Range(0, 3)] {
 		real := descPoolSizes[j]
@@ -918,7 +935,7 @@ func genDescsCase(rng *vh.Rng) descsCase {
 
 func sectionDescs(rng *vh.Rng) {
 	sec := res.Section("descs", "unit-correspondence",
-		"the real Scanner.mergeDescs (export VerifMergeDescs) on generated old/new descriptor sets over a pool of 6 real files (sizes 0,1,10,31,64,100; real ids, or another id for the same path = rotation): old offsets within / equal to / beyond the seen size and the real size, scanned sizes stale (smaller than the real size), exact, or larger — against the Lean model (mergeDescs with the second stat as an input) and the SPEC (new id => offset 0; a file that only grew keeps its offset however stale the scanned size; a truncated file => 0). non-trivial = both sets non-empty, distinct by input")
+		"the real Scanner.mergeDescs (export VerifMergeDescsAll: the whole result, also descriptors kept although the scan did not find their file, with the `missed` flag where the code has it) on generated old/new descriptor sets over a pool of 6 real files (sizes 0,1,10,31,64,100; real ids, or another id for the same path = rotation): old offsets within / equal to / beyond the seen size and the real size, scanned sizes stale (smaller than the real size), exact, or larger — against the Lean model (mergeDescs with the second stat as an input) and the SPEC (new id => offset 0; a file that only grew keeps its offset however stale the scanned size; a truncated file => 0). non-trivial = both sets non-empty, distinct by input")
 	pool, err := newDescPool()
 	if err != nil {
 		res.Note("descs: %v", err)
